@@ -34,6 +34,10 @@ THEOREMS = ['portText_showNat', 'parse_name', 'parse_name_port', 'parse_bare_v6'
             'ipv6_no_brackets', 'label_matches_doc', 'spelled_ipv6',
             'named_target_dialled', 'port_range_target', 'port_range_option', 'port_range_worker', 'resolve_port_in_range',
             'file_targets_clean', 'file_targets_of_lines', 'targets_dialled']
+# functions / statement blocks of the code whose Lean definitions are regenerated from the source on every run (harness/translate_logic.py);
+# `GenLogic.<name>_eq_model` (lean/SshAudit/Props/GenLogic*.lean) ties each to the hand-written model function the theorems above are about
+GEN_LOGIC = ['port_out_of_range']
+
 TECHNIQUE = ('Lean 4 theorems (induction over strings/lists, omega) about a hand-written model of target parsing, command-line handling, '
              'address-family ordering, dialling and labelling + differential correspondence with the Python code, unit-wise and on whole '
              'main() runs over an in-process fake network')
